@@ -1,13 +1,20 @@
 """C07 — see DESIGN.md §6 and harness/handler_props.py (plan) / oracles.py (oracle)."""
+import json
+
 import handler_props as hp
+import large_file
 from prop_meta import META_ALL
 
 META = META_ALL["C07"]
 
 
 def run(ctx):
-    return hp.check(ctx, "C07", META["level"], META["rule"], META["assumptions"])
+    return hp.check(ctx, "C07", META["level"], META["rule"], META["assumptions"],
+                    extra_explore=large_file.explore)
 
 
 def replay(ctx, path):
+    obj = json.load(open(path))
+    if obj.get("impl_only"):
+        return large_file.replay(ctx, path, obj)
     return hp.replay(ctx, "C07", path)
